@@ -572,6 +572,14 @@ func evalBytePred(info *types.Info, e ast.Expr, v string, b int64) (bool, bool) 
 }
 
 func runC07(c *Ctx) {
+	runC07own(c)
+	// JSON numbers are rewritten by minify.Number: its value-level shape rules are necessary for `numerically equal`
+	c.alsoUnder(map[string]string{"R08.3": "R07.4", "R08.4": "R07.5", "R08.5": "R07.6"}, func(construct string) bool {
+		return strings.Contains(construct, "minify.Number") || strings.HasPrefix(construct, "floor/")
+	}, func() { runC08(c) })
+}
+
+func runC07own(c *Ctx) {
 	const r1, r2, r3 = "R07.1", "R07.2", "R07.3"
 	c.R.Rule(r1, "in json.(*Minifier).Minify the condition of the branch that calls minify.Number, restricted to its conjuncts over text[0], holds exactly for the bytes '-' and '0'..'9' (evaluated for all 256 byte values); the variable holding the token text is assigned only inside that branch (besides its definition from the parser), so every other token is written unchanged")
 	c.R.Rule(r2, "assuming o.KeepNumbers: the call of minify.Number and the writes of the zero-repair bytes are unreachable")
